@@ -1,0 +1,30 @@
+//go:build verif
+
+package silence
+
+import "sort"
+
+// VerifVersionEntry is one entry of the version index.
+type VerifVersionEntry struct {
+	Version int
+	ID      string
+}
+
+// VerifDump returns the ids held by the state map and the matcher index (sorted), the version index in
+// order, and the version counter. Read-only; used by the verification harness only.
+func (s *Silences) VerifDump() (st, mi []string, vi []VerifVersionEntry, version int) {
+	s.mtx.RLock()
+	defer s.mtx.RUnlock()
+	for id := range s.st {
+		st = append(st, id)
+	}
+	for id := range s.mi {
+		mi = append(mi, id)
+	}
+	sort.Strings(st)
+	sort.Strings(mi)
+	for _, sv := range s.vi {
+		vi = append(vi, VerifVersionEntry{Version: sv.version, ID: sv.id})
+	}
+	return st, mi, vi, s.version
+}
